@@ -74,8 +74,11 @@ Definition switch_screen (t : term) : term :=
 Definition resize (w h : Z) (t : term) : term :=
   let m := set_size w h (set_evs [] (tmain t)) in
   let a := set_size w h (set_evs [] (talt t)) in
-  mkTerm (set_evs [] m) (set_evs [] a) (onalt t) (vflags t) (vints t) (vstrs t) (kbm t) (kba t) (tout t)
-    (evs a ++ evs m ++ tlog t).
+  let t1 := mkTerm (set_evs [] m) (set_evs [] a) (onalt t) (vflags t) (vints t) (vstrs t) (kbm t) (kba t) (tout t)
+    (evs a ++ evs m ++ tlog t) in
+  (* then the values of the screen that is shown: cursor, rendition *)
+  let s := active t1 in
+  log_ev (EStyle (sty s)) (log_ev (ECursor (cx s) (cy s)) t1).
 
 (* ---- C0 controls (ptyReadOne) ---- *)
 Definition exec_c0 (b : Z) (t : term) : term :=
